@@ -340,9 +340,27 @@ inline void randomCase(Ctx& c, long idx)
     History h;
     size_t k = r.range(1, 4);
     std::vector<std::pair<uint16_t, uint8_t>> eps;
+    const bool wideIds = r.chance(1, 4);  // mostly the small alphabet (neighbours collide constantly), sometimes any id
     while (eps.size() < k)
     {
         std::pair<uint16_t, uint8_t> e{pickDevice(r), pickStream(r)};
+        if (wideIds)
+        {
+            // ids that differ from an earlier endpoint in single bytes / bits (aliasing under truncation or packing)
+            if (!eps.empty() && r.chance(1, 2))
+            {
+                e = eps[r.below(eps.size())];
+                switch (r.below(4))
+                {
+                    case 0: e.first = static_cast<uint16_t>(e.first ^ (1u << r.below(16))); break;
+                    case 1: e.second = static_cast<uint8_t>(e.second ^ (1u << r.below(8))); break;
+                    case 2: e.first = static_cast<uint16_t>(e.first + 0x0100); e.second = static_cast<uint8_t>(e.second - 1); break;
+                    default: e.first = static_cast<uint16_t>((e.first << 8) | (e.first >> 8)); break;
+                }
+            }
+            else
+                e = {static_cast<uint16_t>(r.next()), r.byte()};
+        }
         if (std::find(eps.begin(), eps.end(), e) == eps.end())
             eps.push_back(e);
     }
